@@ -283,6 +283,20 @@ theorem step_inv {σ : State} (e : Event) (h : Inv σ) : Inv (step σ e) := by
         split
         · exact ⟨forall_mem_set h.tasks (h.tasks T (List.mem_of_getElem? hT)), h.log, h.scopes, h.noAssert⟩
         · exact ⟨h.tasks, h.log, h.scopes, by simp⟩
+  | callSoon p cb =>
+    simp only [step]
+    split
+    · exact h
+    · split
+      · exact ⟨h.tasks, h.log, h.scopes, by simp⟩
+      · split
+        · refine ⟨?_, h.log, h.scopes, h.noAssert⟩
+          intro T hT
+          simp only [List.mem_append, List.mem_singleton] at hT
+          rcases hT with hT | rfl
+          · exact h.tasks T hT
+          · exact wf_cbOps _ _ _ _
+        · exact ⟨h.tasks, h.log, h.scopes, by simp⟩
 
 theorem runEvents_inv {σ : State} (es : List Event) (h : Inv σ) : Inv (runEvents σ es) := by
   induction es generalizing σ with
@@ -436,6 +450,17 @@ theorem resume_frame (σ : State) (t u : Tid) :
             · simp [List.getElem?_eq_none h] at hT
           simp [List.getElem?_set_self this, hT]
         · simp [List.getElem?_set_ne (Ne.symm h)]
+      · rfl
+
+theorem callSoon_frame (σ : State) (p : Pid) (cb : Nat) (u : Tid) (hu : u < σ.tasks.length) :
+    (step σ (.callSoon p cb)).tasks[u]? = σ.tasks[u]? := by
+  simp only [step]
+  split
+  · rfl
+  · split
+    · rfl
+    · split
+      · simp [List.getElem?_append_left hu]
       · rfl
 
 end ProcStack
